@@ -43,6 +43,9 @@ READ_OPS = [
 
 
 LOW_OPS = [o for o in READ_OPS if o["op"] in ("tables", "table_scan", "index_scan", "rowid", "scan_eq", "schema")]
+# the same scans through *Table / *Index objects obtained in an EARLIER transaction of the handle: nothing but the scan
+# itself touches the database in the new transaction
+LOW_REUSE = [dict(o, reuse=True) for o in READ_OPS if o["op"] in ("table_scan", "index_scan", "rowid", "scan_eq")]
 
 
 def summarize(results):
@@ -152,9 +155,22 @@ def run(tier):
             add({"op": "rlock"})
             first_low = [add(dict(o, no_lock=True)) for o in LOW_OPS]
             add({"op": "runlock"})
+            add({"op": "rlock"})
+            first_reuse = [add(dict(o, no_lock=True)) for o in LOW_REUSE]
+            add({"op": "runlock"})
             sel = plist if mode == "open" else [p for p in plist if p[0] in KEY_OFFSETS and (tier == "thorough" or p[1] % 5 == 0 or p[1] < 6)]
             for n, (off, val) in enumerate(sel):
                 add({"op": "patch", "off": off, "hex": "%02x" % val})
+                if mode == "reread" and n % 4 == 3:
+                    # a transaction that starts with a scan through an object kept from an earlier transaction
+                    k0 = n // 4
+                    order = LOW_REUSE[k0 % len(LOW_REUSE):] + LOW_REUSE[:k0 % len(LOW_REUSE)]
+                    add({"op": "rlock"})
+                    ids = [add(dict(o, no_lock=True)) for o in order]
+                    add({"op": "runlock"})
+                    add({"op": "patch", "off": off, "hex": "%02x" % hdr[off]})
+                    marks.append((off, val, ids, "reuse%d" % (k0 % len(LOW_REUSE))))
+                    continue
                 if mode == "reread" and n % 2 == 1:
                     # one explicit low level transaction: every operation inside it must be refused, not only the first
                     add({"op": "rlock"})
@@ -178,9 +194,16 @@ def run(tier):
             if open(path, "rb").read(100) != hdr:
                 raise Infra("base header not restored")
             base_low = summarize([res[i] for i in first_low])
+            base_reuse = summarize([res[i] for i in first_reuse])
+            if any(e for e, _, _, _ in base_reuse):
+                raise Infra("baseline read through kept objects failed: %r" % [res[i].get("err") for i in first_reuse])
             for off, val, ids, kind in marks:
                 rs = summarize([res[i] for i in ids])
-                base_ = base_low if kind == "txn" else base
+                if kind.startswith("reuse"):
+                    k0 = int(kind[5:])
+                    base_ = base_reuse[k0:] + base_reuse[:k0]
+                else:
+                    base_ = base_low if kind == "txn" else base
                 hh = bytearray(hdr)
                 hh[off] = val
                 pan = [p for _, _, _, p in rs if p]
